@@ -6,7 +6,7 @@ use crate::ozone::{self, Fwd, ZoneModel};
 use crate::run::*;
 use proptest::prelude::*;
 use serde::{Deserialize, Serialize};
-use serde_json::Value;
+use serde_json::{json, Value};
 use tz::error::timezone::{LocalTimeTypeError as LE, TimeZoneError as ZE};
 use tz::timezone::{LocalTimeType, TimeZone, TimeZoneRef};
 use tz::TzError;
@@ -256,11 +256,27 @@ pub fn check_tuple(z: &MZone, expect_valid_by_construction: bool, st: &mut Stats
 pub fn replay(kind: &str, case: &Value) -> Result<(), String> {
     match kind {
         "tuple" => check_tuple(&serde_json::from_value(case.clone()).map_err(|e| e.to_string())?, false, &mut Stats::new()),
+        "ltt-short" => check_short(serde_json::from_value(case.clone()).map_err(|e| e.to_string())?),
         "ltt" => {
             let (off, name): (i32, Option<Vec<u8>>) = serde_json::from_value(case.clone()).map_err(|e| e.to_string())?;
             check_ltt(off, name.as_deref(), &mut Stats::new())
         }
         _ => check_zone(&serde_json::from_value(case.clone()).map_err(|e| e.to_string())?, &mut Stats::new()),
+    }
+}
+
+fn check_short(off: i32) -> Result<(), String> {
+    let a = LocalTimeType::with_ut_offset(off);
+    let b = LocalTimeType::new(off, false, None);
+    if a.is_ok() != (off != i32::MIN) || a.as_ref().ok() != b.as_ref().ok() {
+        return Err(format!("LocalTimeType::with_ut_offset({off}) -> {a:?}, LocalTimeType::new({off}, false, None) -> {b:?}"));
+    }
+    let z = TimeZone::fixed(off);
+    let w = b.ok().map(|l| TimeZone::new(vec![], vec![l], vec![], None));
+    match (&z, &w) {
+        (Ok(z), Some(Ok(w))) if z == w => Ok(()),
+        (Err(_), None) => Ok(()),
+        _ => Err(format!("TimeZone::fixed({off}) -> {z:?}, but the general constructor gives {w:?}")),
     }
 }
 
@@ -329,7 +345,7 @@ pub fn run(ctx: &Ctx) -> Outcome {
         "unspecified corners (no Ok/Err claim, only agreement of both constructors and no panic): trailing rule with last transition at i64::MIN, with a switch instant outside i64, or at an instant where a DST rule cannot be evaluated (year outside i32::MIN+2..i32::MAX-2) or whose rule is 'overlapping'".into(),
     ];
     let cases = ctx.tier.pick(12_000u32, 600_000u32);
-    let strat = (gens::arb_zone(ZoneCfg { max_trans: 12, leaps: true, wide_times: true }), arb_defect()).prop_map(|(zone, defect)| ZoneCase { zone, defect });
+    let strat = (prop_oneof![6 => gens::arb_zone(ZoneCfg { max_trans: 12, leaps: true, wide_times: true }), 1 => gens::arb_leap_adjacent_zone(), 1 => gens::arb_aligned_zone()], arb_defect()).prop_map(|(zone, defect)| ZoneCase { zone, defect });
     let rs = par_shards(16, |shard, st| pt_shard(ctx, "zone", shard, cases, &strat, st, check_zone));
     out.absorb_all(rs);
     if out.failure.is_some() {
@@ -391,9 +407,31 @@ pub fn run(ctx: &Ctx) -> Outcome {
     let rs = par_shards(1, |_, st| {
         use crate::model::{MDay, MRule};
         let table = oleap::real_table();
-        for n in 1..=table.len() {
-            let leaps = table[..n].to_vec();
+        // the real table's prefixes, then tables whose last record is a negative leap second (the count L then denotes the UTC second
+        // after the deleted one)
+        let mut tables: Vec<Vec<(i64, i32)>> = (1..=table.len()).map(|n| table[..n].to_vec()).collect();
+        tables.push(vec![(78_796_799, -1)]);
+        tables.push(vec![(78_796_799, -1), (94_694_398, -2)]);
+        tables.push(vec![(78_796_800, 1), (94_694_400, 0)]);
+        tables.push(vec![(78_796_800, 1), (94_694_401, 2), (126_230_401, 1)]);
+        for leaps in tables {
+            let n = leaps.len();
             let (l, _) = leaps[n - 1];
+            // two transitions on consecutive counts straddling the last record (L and L+1 denote the same UTC second when L is an
+            // inserted one): strictly increasing, hence well formed, with any trailer that fits
+            for (t0, t1) in [(l, l + 1), (l - 1, l), (l + 1, l + 2)] {
+                for fixed in [false, true] {
+                    let a = MLtt::new(0, false, Some("AAA"));
+                    let b = MLtt::new(3600, true, Some("BBB"));
+                    let z = MZone { trans: vec![(t0, 1), (t1, 0)], types: vec![a.clone(), b], leaps: leaps.clone(), trailer: if fixed { MTrailer::Fixed(a) } else { MTrailer::None } };
+                    check_enum("tuple", &z, st, |z, st| {
+                        let r = check_tuple(z, true, st);
+                        st.nontrivial_exact(1);
+                        st.class("transitions_on_consecutive_counts_at_a_leap_record");
+                        r
+                    })?;
+                }
+            }
             let u = match oleap::g(&leaps, l) {
                 Some(u) => u,
                 None => continue,
@@ -439,6 +477,11 @@ pub fn run(ctx: &Ctx) -> Outcome {
         }
         for off in [0, i32::MIN] {
             check_enum("ltt", &(off, None::<Vec<u8>>), st, |c, st| check_ltt(c.0, c.1.as_deref(), st))?;
+        }
+        // the shorthand constructors decide like the general ones
+        for off in [0, 1, -1, 3600, i32::MIN, i32::MIN + 1, i32::MAX] {
+            st.eval(1);
+            check_short(off).map_err(|m| Failure::new("ltt-short", m, json!(off)))?;
         }
         for len in 3..=7usize {
             for pos in 0..len {
